@@ -35,7 +35,11 @@ def facts(ctx):
 def run(ctx):
     facts(ctx)
     ctx.lean_proofs("Props.C17")
-    ctx.rule("c17 ops: sequences of the real keeper calls send / module→account / account→module / module→module / mint / burn / "
+    ctx.rule("c17 genesis: the real auth.InitGenesis on a fresh app per case: 2-6 accounts over 5 addresses (duplicate addresses with equal "
+             "and different coins are frequent), zero-coin accounts, 0-2 module accounts (possibly the same twice), supply omitted (derived) "
+             "or given (= Σ effective accounts); the initial state is judged, then 4 real send/mint/burn calls; the chain and ops streams start "
+             "from an InitChain genesis with duplicate account entries (seed % 3: + zero-coin accounts / supply given); non-trivial = duplicates | "
+             "c17 ops: sequences of the real keeper calls send / module→account / account→module / module→module / mint / burn / "
              "GetModuleAccount over 18 addresses (funded, staked, unfunded, and the 6 module addresses — so that module accounts are "
              "created, or pre-empted by a plain account) and 7 module names (one unregistered, one without permissions); amounts from "
              "{0, 1, balance−1, balance, balance+1, 10^15, negative (invalid coin), random}; RewardForRelays/BurnForChallenge of the real "
@@ -44,7 +48,8 @@ def run(ctx):
              "~20% malformed, duplicates, missed votes, double-sign evidence, block-time jumps up to 26 h); dump after every ABCI call; "
              "non-trivial = tx with code 0 or a block with missed votes/evidence")
     ctx.trust("go/ast fact extractor matches by selector name (no type information)")
-    ctx.assume("genesis satisfies supply = Σ balances and balances ≥ 0 (checked on the generated genesis by the init line)")
+    ctx.assume("a genesis supply, when given, equals Σ of the effective (last entry per address) genesis accounts; balances ≥ 0 (both checked on every generated genesis by the init line)")
+    ctx.stream("genesis", "c17", DRIVER, n=3000 if ctx.thorough else 200, args=["-mode", "genesis"])
     ctx.stream("ops", "c17", DRIVER, n=40000 if ctx.thorough else 3000)
     ctx.stream("chain", "c17", DRIVER, n=1200 if ctx.thorough else 100, args=["-mode", "chain"])
     if ctx.thorough:
